@@ -41,6 +41,7 @@ type ScanCase struct {
 	Bare          bool           `json:"bare,omitempty"`
 	Extra         map[int]string `json:"extra_headers,omitempty"`
 	Family        string         `json:"family,omitempty"`
+	Gitconfig     string         `json:"gitconfig,omitempty"` // text appended to the repository's config file
 }
 
 // ApiResult is what cmd/apidrv returns for a scan case.
